@@ -294,6 +294,9 @@ func c05(c *core.Ctx) {
 					continue
 				}
 			} else {
+				// the intact message first, then the damaged copy, each read into a buffer of its own (same capacity)
+				recv.Raw = append(make([]byte, 0, len(wire)+16), wire...)
+				_ = recv.Decode()
 				recv.Raw = append(make([]byte, 0, len(wire)+16), f...)
 				if err := recv.Decode(); err != nil {
 					continue
